@@ -100,6 +100,9 @@ CLAIMED = {
     "C04": ("COLUMNS (the six explicit system / station / frame Jacobian builders as unit-vector applications of multiplyBySystemJacobian[Transpose]) and SWEEP (Jacobian operator outward, its transpose inward, body accelerations outward)",
             "Static decision of the agreement-of-routes clause of C04 (DESIGN section 3): every explicit Jacobian is, slot by slot, the O(n) operator applied to a unit vector / unit spatial force (zero start, set, apply, reset on every path, same-index slot, all indices), so explicit matrices and operators are one route; the operator sweeps outward and its transpose inward, each over every node. "
             "That J*u equals the reported velocities, the bias terms and the adjoint identity as an equality of values are numerical and NOT decided."),
+    "C44": ("PROJECT (every inequality-carrying row family of the PGS sweep is projected by its bound function, on the same rows, on every path after its update; sweep order; no write of pi after the sweep), CLAMP (shape of the four bound functions), REPORT (convergence reported only under the tolerance test)",
+            "Static decision of the projection discipline of the PGS impulse solver (DESIGN section 3, C44): every conditional impulse PGSImpulseSolver::solve can return was, after its last update, passed through the bound function of its family with the same row indices -- unilateral normals through boundUnilateral (zero exactly when pulling), bounded scalars through boundScalar (clamped to [lb, ub]), friction rows through boundVector / boundFriction (every component scaled onto the limit) -- and convergence is reported only under the tolerance test. "
+            "Convergence of projected Gauss-Seidel, the values it converges to, the PLUS solver and how the caller builds the row families are NOT decided."),
 }
 NA = {
  "C03": "derivative relation between numeric routines; needs symbolic differentiation (other family)",
@@ -121,7 +124,6 @@ NA = {
  "C40": "error bounds are numerical analysis",
  "C41": "derivative/value consistency of formulas is numerical/symbolic",
  "C42": "graph-algorithm post-condition over all input graphs needs a proof of the algorithm, not a shape rule",
- "C44": "active-set / Gauss-Seidel outcomes are numerical",
  "C45": "lengths, rates and power are numerical; frame lint alone is too little of the property",
  "C47": "on-surface residuals and agreement between integrators are numerical",
 }
